@@ -13,7 +13,7 @@ CLAIMED = {
              "extensional, size/foreach characterised); attr_path parse/print round trip, canonical form, "
              "length and component bounds proved for all byte strings. The model is tied to the C code by "
              "differential execution of the real xcm_attr_map / attr_path code (ASan+UBSan) against the "
-             "executable model on generated op histories and strings.",
+             "executable model on generated op histories and strings. The attribute tree itself (attr_tree.c over attr_node.c) has a flat Lean model (AttrTree) with theorems for every tree and path: an added value is found under its name, adding a node changes no unrelated lookup, get-all lists exactly the readable values added, and a name is listed iff it is found as that value (lookup_add_value_same, lookup_add_unrelated, listed_is_found, found_is_listed); tie: unit_attrtree - the real nested tree built with the library\'s add functions, queried with existing, prefix, kind-confused, out-of-range and malformed names.",
         note="Trusted: Lean kernel (axioms propext, Classical.choice, Quot.sound only), the hand-written "
              "model's correspondence harness (sampled differential testing, so a divergence on an "
              "unsampled input is possible), strtol/snprintf models validated against glibc through the "
@@ -162,7 +162,7 @@ CLAIMED = {
              "for all histories of both ends the i-th delivered message is the i-th message whose send returned 0 — so a "
              "failed send is never delivered and none is duplicated (C03_only_accepted_delivered_once, from "
              "C01_exact_delivery). Tie: unit_framing correspondence with send-focused generation (sizes 0,1,max,max+1,"
-             "far larger; refusal before acceptance, between acceptance and flush, after k bytes) and a wire monitor.",
+             "far larger; refusal before acceptance, between acceptance and flush, after k bytes) and a wire monitor. The size check is exercised with claimed lengths around 2^31, 2^32 (plus a valid remainder), 2^63 and 2^64-1 (SL op).",
         note="The blocking wrapper in xcm.c (poll() interrupted by a signal between acceptance and flush, defect "
              "F-03a, found and fixed here) is covered by C03_blocking_send_no_false_failure / _accepted_once on the Api model, tied by unit_api; ux/uxf: C03_ux_failed_send_no_trace + unit_ux; 'exactly once' is the "
              "safety half (at most once, in order) — eventual delivery is C04. Lower-layer failure is assumed terminal.",
@@ -240,7 +240,7 @@ CLAIMED = {
              "can overrun the path parser (C10_names_total, from C19). Tie: sys_attr on live sockets of all seven transports "
              "in five socket states: every attribute x every access function x capacities 0..size+2 into canary-framed "
              "buffers (bytes written and bytes beyond capacity measured), every name x type x length for set with a state "
-             "snapshot before/after, malformed and over-long names; rc/errno/written compared with the model. Translator tie (T1b): valid_set_attr_len of attr_tree.c is regenerated from clang AST on every run and proved equal to AttrAccess.validSetLen for every type code (valid or not) and every length (valid_set_attr_len_tie).",
+             "snapshot before/after, malformed and over-long names; rc/errno/written compared with the model. Translator tie (T1b): valid_set_attr_len of attr_tree.c is regenerated from clang AST on every run and proved equal to AttrAccess.validSetLen for every type code (valid or not) and every length (valid_set_attr_len_tie). The attribute tree itself (attr_tree.c over attr_node.c) has a flat Lean model (AttrTree) with theorems for every tree and path: an added value is found under its name, adding a node changes no unrelated lookup, get-all lists exactly the readable values added, and a name is listed iff it is found as that value (lookup_add_value_same, lookup_add_unrelated, listed_is_found, found_is_listed); tie: unit_attrtree - the real nested tree built with the library\'s add functions, queried with existing, prefix, kind-confused, out-of-range and malformed names.",
         note="Found and fixed here: F-10a (fixed-size getters ignored capacity), F-10c (out-of-bounds read of the caller's "
              "buffer when a string getter returns 0 bytes). Attribute values are abstracted to their size. The getter "
              "classification is a translator over preprocessed C (extract/ext_attrs.py) and is trusted together with the "
@@ -298,7 +298,7 @@ CLAIMED = {
              "Constants and sizeof(struct ctl_proto_msg) are regenerated from the source. Tie: sys_ctl - raw SEQPACKET client and "
              "the libxcmctl client against live sockets of six transports plus TLS with by-value credentials and a 30-SAN peer, "
              "every reply compared with the in-process answer of the same run and with the model, ASan in the owner, a message "
-             "flow with requests in flight, control files gone after close.",
+             "flow with requests in flight, control files gone after close. MIX2: a session is removed while another session\'s reply is built but not yet sent; that session must receive its own answer.",
         note="Found and fixed here: F-14a..d (four fix: commits). 'Passive' is checked as a runtime monitor (the data path keeps "
              "delivering in order while requests are in flight), not as a theorem about the whole library state. utls sockets "
              "delegate their control interface to their ux/tls sub-sockets, which are covered as such. C memory safety is "
